@@ -164,6 +164,9 @@ impl AEADBodyCodec {
                     }
                     let length = self.decode_size(&mut src.split_to(size_bytes), session.chunk_nonce())?;
                     trace!("Decode payload; payload length={}", length);
+                    if length < padding + self.auth.cipher.tag_size() {
+                        return Err(aead::Error);
+                    }
                     self.state = DecodeState::Body(padding, length)
                 }
                 DecodeState::Body(padding, length) => {
